@@ -125,7 +125,11 @@ def _scan(fb, fmt, leaf):
     return out
 
 
-def encode(sk, *xs):
+def sizes(sk, *xs):
+    return encode(sk, *xs, _mode="size")
+
+
+def encode(sk, *xs, _mode="decode"):
     dims, desc, imposed = sk["dims"], sk["desc"], sk.get("imposed")
     nest, _ = _nest(dims, xs)
     names_ = rank_ids_for(len(dims))
@@ -135,6 +139,8 @@ def encode(sk, *xs):
     with patched(MODS, print=_noprint):
         out, ot = enc(t, desc, shape)
         got = decode(out, names_, desc, shape or dims)
+        if _mode == "size":
+            got = want
         if got is None:
             return fail("%s: the arrays hold words the documented layout does not account for" % "".join(desc))
         if got != want:
@@ -161,9 +167,9 @@ def encode(sk, *xs):
                     continue
                 if f == "C" and not leaf and child_cb and n == 0:
                     continue          # getSize asserts on an empty non-leaf C fiber; nothing is stored for it
-                if fb.getSize() != words:
+                if _mode == "size" and fb.getSize() != words:
                     return fail("%s: a %s fiber at rank %d reports size %r, its layout stores %r words" % ("".join(desc), f, i, fb.getSize(), words))
-                if leaf:
+                if leaf and _mode == "decode":
                     sc = _scan(fb, f, leaf)
                     if f == "U":
                         elems = [(c, fb.payloads[ph]) for c, ph in sc]
@@ -233,6 +239,9 @@ def obligations(tier):
     d3 = [("U", "C", "B"), ("C", "C", "C"), ("B", "U", "C"), ("C", "B", "U")] if q else list(itertools.product("UCB", repeat=3))
     for desc in d3:
         obs.append(Ob("enc/2x2x2/%s" % "".join(desc), "encode", dict(dims=[2, 2, 2], desc=list(desc)), names("v", 8), []))
+    for o in list(obs):
+        if o.fn == "encode":
+            obs.append(Ob(o.name.replace("enc/", "size/"), "sizes", o.sk, o.params, o.pre))
     for n in range(4):
         cn = names("c", n)
         obs.append(Ob("clist/%d" % n, "clist", dict(n=n, S=1 << 40), ["qy"] + cn + names("v", n), chain_pre(cn) + bound_pre(cn, 0, 1 << 40)))
